@@ -11,8 +11,11 @@
     and the namespace-level ends of either socket (DISCONNECT packet, Disconnect(false)).
     Both sockets are symmetric: each has its own admission goroutine and its own once.
     Reasons are data (see Lifecycle.v), so ONE connection-level end stands for transport close /
-    error, ping timeout, forced close.  [flag_first = true] is the code; [false] sets the closed
-    flag after the loop (the class of defects this file is built to exclude). *)
+    error, ping timeout, forced close.  The two sockets are either of two namespaces or - two
+    CONNECT packets for one namespace whose goroutines both passed getByNsp before either registered -
+    of ONE namespace ([same_nsp]): then conn.sockets holds both by id and only the later one by
+    namespace, and removeByID of either deletes the namespace's entry.  Variants that are NOT the code:
+    [flag_first = false] (closed flag after the loop), [displace] (set drops the displaced by-id entry). *)
 From SioV Require Import Base.GoSem Sio.Lifecycle.
 Local Open Scope N_scope.
 
@@ -51,22 +54,33 @@ Record ctl2 := mkCtl2 {
   snapB : bool;
   cur : N;
   cc2 : bool;
+  bynsp : N   (* same namespace: which socket conn.sockets holds for the namespace (0 none, 1 A, 2 B) *);
   skA : sk;
   skB : sk
 }.
-Definition cinit2 : ctl2 := mkCtl2 Fresh 0 true Fresh 0 false false false 0 false sk0 sk0.
-Definition set2_e_once2 (v : N) (s : ctl2) : ctl2 := mkCtl2 v (e_pc2 s) (store2 s) (c_once2 s) (c_pc2 s) (closed2 s) (snapA s) (snapB s) (cur s) (cc2 s) (skA s) (skB s).
-Definition set2_e_pc2 (v : N) (s : ctl2) : ctl2 := mkCtl2 (e_once2 s) v (store2 s) (c_once2 s) (c_pc2 s) (closed2 s) (snapA s) (snapB s) (cur s) (cc2 s) (skA s) (skB s).
-Definition set2_store2 (v : bool) (s : ctl2) : ctl2 := mkCtl2 (e_once2 s) (e_pc2 s) v (c_once2 s) (c_pc2 s) (closed2 s) (snapA s) (snapB s) (cur s) (cc2 s) (skA s) (skB s).
-Definition set2_c_once2 (v : N) (s : ctl2) : ctl2 := mkCtl2 (e_once2 s) (e_pc2 s) (store2 s) v (c_pc2 s) (closed2 s) (snapA s) (snapB s) (cur s) (cc2 s) (skA s) (skB s).
-Definition set2_c_pc2 (v : N) (s : ctl2) : ctl2 := mkCtl2 (e_once2 s) (e_pc2 s) (store2 s) (c_once2 s) v (closed2 s) (snapA s) (snapB s) (cur s) (cc2 s) (skA s) (skB s).
-Definition set2_closed2 (v : bool) (s : ctl2) : ctl2 := mkCtl2 (e_once2 s) (e_pc2 s) (store2 s) (c_once2 s) (c_pc2 s) v (snapA s) (snapB s) (cur s) (cc2 s) (skA s) (skB s).
-Definition set2_snapA (v : bool) (s : ctl2) : ctl2 := mkCtl2 (e_once2 s) (e_pc2 s) (store2 s) (c_once2 s) (c_pc2 s) (closed2 s) v (snapB s) (cur s) (cc2 s) (skA s) (skB s).
-Definition set2_snapB (v : bool) (s : ctl2) : ctl2 := mkCtl2 (e_once2 s) (e_pc2 s) (store2 s) (c_once2 s) (c_pc2 s) (closed2 s) (snapA s) v (cur s) (cc2 s) (skA s) (skB s).
-Definition set2_cur (v : N) (s : ctl2) : ctl2 := mkCtl2 (e_once2 s) (e_pc2 s) (store2 s) (c_once2 s) (c_pc2 s) (closed2 s) (snapA s) (snapB s) v (cc2 s) (skA s) (skB s).
-Definition set2_cc2 (v : bool) (s : ctl2) : ctl2 := mkCtl2 (e_once2 s) (e_pc2 s) (store2 s) (c_once2 s) (c_pc2 s) (closed2 s) (snapA s) (snapB s) (cur s) v (skA s) (skB s).
-Definition set2_skA (v : sk) (s : ctl2) : ctl2 := mkCtl2 (e_once2 s) (e_pc2 s) (store2 s) (c_once2 s) (c_pc2 s) (closed2 s) (snapA s) (snapB s) (cur s) (cc2 s) v (skB s).
-Definition set2_skB (v : sk) (s : ctl2) : ctl2 := mkCtl2 (e_once2 s) (e_pc2 s) (store2 s) (c_once2 s) (c_pc2 s) (closed2 s) (snapA s) (snapB s) (cur s) (cc2 s) (skA s) v.
+Definition cinit2 : ctl2 := mkCtl2 Fresh 0 true Fresh 0 false false false 0 false 0 sk0 sk0.
+Definition set2_e_once2 (v : N) (s : ctl2) : ctl2 := mkCtl2 v (e_pc2 s) (store2 s) (c_once2 s) (c_pc2 s) (closed2 s) (snapA s) (snapB s) (cur s) (cc2 s) (bynsp s) (skA s) (skB s).
+Definition set2_e_pc2 (v : N) (s : ctl2) : ctl2 := mkCtl2 (e_once2 s) v (store2 s) (c_once2 s) (c_pc2 s) (closed2 s) (snapA s) (snapB s) (cur s) (cc2 s) (bynsp s) (skA s) (skB s).
+Definition set2_store2 (v : bool) (s : ctl2) : ctl2 := mkCtl2 (e_once2 s) (e_pc2 s) v (c_once2 s) (c_pc2 s) (closed2 s) (snapA s) (snapB s) (cur s) (cc2 s) (bynsp s) (skA s) (skB s).
+Definition set2_c_once2 (v : N) (s : ctl2) : ctl2 := mkCtl2 (e_once2 s) (e_pc2 s) (store2 s) v (c_pc2 s) (closed2 s) (snapA s) (snapB s) (cur s) (cc2 s) (bynsp s) (skA s) (skB s).
+Definition set2_c_pc2 (v : N) (s : ctl2) : ctl2 := mkCtl2 (e_once2 s) (e_pc2 s) (store2 s) (c_once2 s) v (closed2 s) (snapA s) (snapB s) (cur s) (cc2 s) (bynsp s) (skA s) (skB s).
+Definition set2_closed2 (v : bool) (s : ctl2) : ctl2 := mkCtl2 (e_once2 s) (e_pc2 s) (store2 s) (c_once2 s) (c_pc2 s) v (snapA s) (snapB s) (cur s) (cc2 s) (bynsp s) (skA s) (skB s).
+Definition set2_snapA (v : bool) (s : ctl2) : ctl2 := mkCtl2 (e_once2 s) (e_pc2 s) (store2 s) (c_once2 s) (c_pc2 s) (closed2 s) v (snapB s) (cur s) (cc2 s) (bynsp s) (skA s) (skB s).
+Definition set2_snapB (v : bool) (s : ctl2) : ctl2 := mkCtl2 (e_once2 s) (e_pc2 s) (store2 s) (c_once2 s) (c_pc2 s) (closed2 s) (snapA s) v (cur s) (cc2 s) (bynsp s) (skA s) (skB s).
+Definition set2_cur (v : N) (s : ctl2) : ctl2 := mkCtl2 (e_once2 s) (e_pc2 s) (store2 s) (c_once2 s) (c_pc2 s) (closed2 s) (snapA s) (snapB s) v (cc2 s) (bynsp s) (skA s) (skB s).
+Definition set2_cc2 (v : bool) (s : ctl2) : ctl2 := mkCtl2 (e_once2 s) (e_pc2 s) (store2 s) (c_once2 s) (c_pc2 s) (closed2 s) (snapA s) (snapB s) (cur s) v (bynsp s) (skA s) (skB s).
+Definition set2_bynsp (v : N) (s : ctl2) : ctl2 := mkCtl2 (e_once2 s) (e_pc2 s) (store2 s) (c_once2 s) (c_pc2 s) (closed2 s) (snapA s) (snapB s) (cur s) (cc2 s) v (skA s) (skB s).
+Definition set2_skA (v : sk) (s : ctl2) : ctl2 := mkCtl2 (e_once2 s) (e_pc2 s) (store2 s) (c_once2 s) (c_pc2 s) (closed2 s) (snapA s) (snapB s) (cur s) (cc2 s) (bynsp s) v (skB s).
+Definition set2_skB (v : sk) (s : ctl2) : ctl2 := mkCtl2 (e_once2 s) (e_pc2 s) (store2 s) (c_once2 s) (c_pc2 s) (closed2 s) (snapA s) (snapB s) (cur s) (cc2 s) (bynsp s) (skA s) v.
+
+(** code variants *)
+Record cfg2 := mkCfg2 {
+  flag_first : bool;   (* serverConn.onClose sets `closed` before getAndRemoveAll (the code) *)
+  same_nsp : bool;     (* the two sockets belong to ONE namespace (two overlapping CONNECT packets for it):
+                          they share the by-namespace index of conn.sockets; false: two namespaces *)
+  displace : bool      (* serverSocketStore.set drops the by-id entry of the socket it displaces (NOT the code) *)
+}.
+Definition code2 (same : bool) : cfg2 := mkCfg2 true same false.
 
 (** socket selector: false = A, true = B *)
 Definition gsk (w : bool) (s : ctl2) : sk := if w then skB s else skA s.
@@ -94,7 +108,7 @@ Inductive act2 :=
 | A2ClientDisc (w : bool)   (* DISCONNECT packet for the socket's namespace *)
 | A2ServerDisc (w : bool).  (* socket.Disconnect(false) *)
 
-Definition cstep2 (flag_first : bool) (a : act2) (s : ctl2) : option ctl2 :=
+Definition cstep2 (k2 : cfg2) (a : act2) (s : ctl2) : option ctl2 :=
   match a with
   | A2Ebody =>
       if negb (e_once2 s =? Running) then None else
@@ -103,13 +117,13 @@ Definition cstep2 (flag_first : bool) (a : act2) (s : ctl2) : option ctl2 :=
   | A2Cbody =>
       if negb (c_once2 s =? Running) then None else
       if c_pc2 s =? 0 then (* code: closed = true; closeReason = reason *)
-        Some (set2_c_pc2 1 (if flag_first then set2_closed2 true s else s))
+        Some (set2_c_pc2 1 (if flag_first k2 then set2_closed2 true s else s))
       else if c_pc2 s =? 1 then (* sockets.getAndRemoveAll() *)
         Some (set2_c_pc2 2 (set2_snapA (incs (skA s)) (set2_snapB (incs (skB s))
-               (usk false (sk_incs false) (usk true (sk_incs false) s)))))
+               (set2_bynsp 0 (usk false (sk_incs false) (usk true (sk_incs false) s))))))
       else if c_pc2 s =? 2 then (* the loop is over when every socket of the snapshot was closed *)
         if (cur s =? 0) && negb (snapA s) && negb (snapB s)
-        then (if flag_first then Some (set2_c_once2 Done s) else Some (set2_c_pc2 3 (set2_closed2 true s)))
+        then (if flag_first k2 then Some (set2_c_once2 Done s) else Some (set2_c_pc2 3 (set2_closed2 true s)))
         else None
       else Some (set2_c_once2 Done s)
   | A2Cpick w => (* next socket of the snapshot, in any order: socket.onClose(reason), waited for *)
@@ -126,14 +140,20 @@ Definition cstep2 (flag_first : bool) (a : act2) (s : ctl2) : option ctl2 :=
         Some (usk w (fun k => sk_pc 2 (sk_ndg (sat2 (ndg k)) k)) s)
       else if pc k =? 2 then Some (usk w (fun k => sk_pc 3 (sk_room false k)) s)       (* leaveAll *)
       else if pc k =? 3 then Some (usk w (fun k => sk_pc 4 (sk_innsp false k)) s)      (* nsp.remove *)
-      else if pc k =? 4 then Some (usk w (fun k => sk_pc 5 (sk_incs false k)) s)       (* conn.remove *)
+      else if pc k =? 4 then (* conn.remove: removeByID deletes the by-id entry AND the namespace's by-nsp entry *)
+        Some (usk w (sk_pc 5) (if incs k then usk w (sk_incs false) (if same_nsp k2 then set2_bynsp 0 s else s) else s))
       else if pc k =? 5 then Some (usk w (fun k => sk_pc 6 (sk_conn false k)) s)       (* connected = false *)
       else Some (usk w (fun k => sk_o Done (sk_nd (sat2 (nd k)) k)) s)                 (* disconnect handlers *)
   | A2Admit w =>
       let k := gsk w s in
-      if apc k =? 0 then (if incs k then None else Some (usk w (sk_apc 1) s))   (* CONNECT; middlewares *)
+      if apc k =? 0 then (* CONNECT packet: getByNsp; found -> "invalid state" -> c.close(); else middlewares *)
+        if same_nsp k2 then (if bynsp s =? 0 then Some (usk w (sk_apc 1) s) else Some (usk w (sk_apc 7) (cclose2 s)))
+        else (if incs k then None else Some (usk w (sk_apc 1) s))
       else if apc k =? 1 then Some (usk w (fun k => sk_apc 2 (sk_innsp true k)) s)
-      else if apc k =? 2 then Some (usk w (fun k => sk_apc 3 (sk_incs true k)) s)
+      else if apc k =? 2 then (* conn.sockets.set: by-id and by-nsp entries *)
+        let s1 := if same_nsp k2 && displace k2 && negb (bynsp s =? 0) && negb (bynsp s =? wid w)
+                  then usk (negb w) (sk_incs false) s else s in
+        Some (usk w (fun k => sk_apc 3 (sk_incs true k)) (if same_nsp k2 then set2_bynsp (wid w) s1 else s1))
       else if apc k =? 3 then Some (usk w (fun k => sk_apc 4 (sk_conn true (sk_ever true (sk_room true k)))) s)
       else if apc k =? 4 then (* if c.closed { socket.onClose(c.closeReason) } *)
         if closed2 s then Some (usk w (sk_apc 5) (call_S2 w s)) else Some (usk w (sk_apc 6) s)
@@ -142,7 +162,10 @@ Definition cstep2 (flag_first : bool) (a : act2) (s : ctl2) : option ctl2 :=
   | A2CClose => if cc2 s && (e_once2 s =? Done) then Some (set2_cc2 false (call_C2 s)) else None
   | A2ConnEnd => Some (call_E2 s)
   | A2Invalid => Some (cclose2 s)
-  | A2ClientDisc w => if incs (gsk w s) then Some (call_S2 w s) else Some (cclose2 s)
+  | A2ClientDisc w => (* DISCONNECT packet: getByNsp *)
+      if same_nsp k2 then
+        (if bynsp s =? wid w then Some (call_S2 w s) else if bynsp s =? 0 then Some (cclose2 s) else None)
+      else if incs (gsk w s) then Some (call_S2 w s) else Some (cclose2 s)
   | A2ServerDisc w => if conn (gsk w s) then Some (call_S2 w s) else Some s
   end.
 
@@ -158,7 +181,7 @@ Definition pending2 (a : act2) (s : ctl2) : bool :=
   | A2Admit w => negb (apc (gsk w s) =? 0)
   | _ => true
   end.
-Definition quiescent2 (ff : bool) (s : ctl2) : bool :=
-  forallb (fun a => negb (pending2 a s) || match cstep2 ff a s with None => true | Some _ => false end) all_acts2.
+Definition quiescent2 (k2 : cfg2) (s : ctl2) : bool :=
+  forallb (fun a => negb (pending2 a s) || match cstep2 k2 a s with None => true | Some _ => false end) all_acts2.
 
 Definition sk_clean (k : sk) : bool := negb (innsp k) && negb (room k) && negb (conn k).
